@@ -17,6 +17,9 @@ use crate::prelude::{
 use crate::prelude::{DynamicCodeRead, DynamicCodeWrite, StaticCodeRead, StaticCodeWrite};
 use anyhow::Result;
 use core::fmt::Debug;
+#[cfg(dsi_bitstream_verif)]
+use shuttle::sync::Mutex;
+#[cfg(not(dsi_bitstream_verif))]
 use std::sync::Mutex;
 
 /// Keeps track of the space needed to store a stream of integers using
